@@ -46,18 +46,29 @@ def assemble_rtf(
     # Remove last line if it contains only '}' or remove the last '}' char
     # r2rtf simply removes the last line: end[-n] <- end[-n] - 1
 
-    # Helper to find start index based on fcharset
-    def find_start_index(lines):
-        last_idx = 0
-        found = False
+    # Helper to find where the body of a subsequent file starts.
+    # The font table is the first run of consecutive lines containing
+    # "fcharset"; the line after it closes the table. Later occurrences of the
+    # word (for example in user text) are body content.
+    def find_body_start(lines):
+        last_idx = None
         for i, line in enumerate(lines):
             if "fcharset" in line:
                 last_idx = i
-                found = True
+            elif last_idx is not None:
+                break
 
-        if found:
-            return last_idx + 2
-        return 0
+        if last_idx is None:
+            return 0, []
+
+        # Whatever follows the closing brace of the font table on its own line
+        # (figure documents put the color table there) belongs to the body.
+        leftover = []
+        if last_idx + 1 < len(lines):
+            rest = lines[last_idx + 1].partition("}")[2]
+            if rest.strip():
+                leftover = [rest]
+        return last_idx + 2, leftover
 
     new_page_cmd = r"\page" + "\n"
 
@@ -65,16 +76,17 @@ def assemble_rtf(
 
     for i, lines in enumerate(rtf_contents):
         start_idx = 0
+        leftover = []
         if i > 0:
             # For subsequent files, skip header
-            start_idx = find_start_index(lines)
+            start_idx, leftover = find_body_start(lines)
 
         end_idx = len(lines)
         if i < len(rtf_contents) - 1 and lines[-1].strip() == "}":
             # Remove last line (closing brace) for all but last file
             end_idx -= 1
 
-        part = lines[start_idx:end_idx]
+        part = leftover + lines[start_idx:end_idx]
         processed_parts.extend(part)
 
         if i < len(rtf_contents) - 1:
